@@ -285,7 +285,7 @@ class Report:
             for k in listed[:1]:
                 self.hit[k] = self.hit.get(k, 0) + 1
             return
-        d = os.path.join(VERIF, 'out', 'violations', self.ctx.prop)
+        d = os.path.join(os.environ.get('VERIF_OUT_DIR', os.path.join(VERIF, 'out')), 'violations', self.ctx.prop)
         os.makedirs(d, exist_ok=True)
         h = hashlib.sha1(json.dumps(case_obj, sort_keys=True).encode()).hexdigest()[:10]
         p = os.path.join(d, '%s_%s.json' % (pred, h))
@@ -324,8 +324,9 @@ class Report:
             'coverage': cov, 'assumptions': assumptions + ctx.notes,
             'wall_s': round(time.time() - ctx.t0, 1), 'violations': len(self.violations),
         }
-        os.makedirs(os.path.join(VERIF, 'evidence'), exist_ok=True)
-        json.dump(ev, open(os.path.join(VERIF, 'evidence', ctx.prop + '.json'), 'w'), indent=1)
+        evdir = os.environ.get('VERIF_EVIDENCE_DIR', os.path.join(VERIF, 'evidence'))
+        os.makedirs(evdir, exist_ok=True)
+        json.dump(ev, open(os.path.join(evdir, ctx.prop + '.json'), 'w'), indent=1)
         log('[%s %s] %d observations judged, %d violations, %d known-finding cases, %.1fs' % (
             ctx.prop, ctx.tier, self.evaluations, len(self.violations), sum(self.hit.values()), time.time() - ctx.t0))
         return 1 if self.violations else 0
